@@ -97,8 +97,10 @@ def transitions_case(rng):
     import tx
     with cli.Scratch() as sc:
         src = sc.write("src." + F, text)
+        pw = rng.choice([[], [], ["quiet"], ["bare_bin_labels"], ["bare_bin_labels:0", "foo:1"]])
+        dw = rng.choice([["pos"], ["pos:0"], ["pos", "x:1"]]) if pos else rng.choice([[], [], ["x:1"]])
         rc, _, err = cli.run_cli(["transitions", src, sc.path("out"), system, "--transform"] + trans + src_argv(F, opts)
-                                 + (["--dest-opts", "pos"] if pos else []))
+                                 + ((["--dest-opts"] + dw) if dw else []) + ((["--transformparams"] + pw) if pw else []))
         if rc != 0:
             got = cli_error(err)
         else:
@@ -106,8 +108,12 @@ def transitions_case(rng):
             if out and out[-1] == "":
                 out.pop()
             got = "|".join(proto.enc_s(x) for x in out) if out else "EMPTY"
+    ew = lambda ws: ",".join(proto.enc_s(w) for w in ws)
+    bare = {"bare_bin_labels": True} if any(w.startswith("bare_bin_labels") for w in pw) else {}
     lines = [Line("corr", "transitions_src", [F, proto.enc_opts(opts), system, "t" if pos else "f",
-                                              tx.calls_str([(n, {}) for n in trans]), srcarg], got)]
+                                              tx.calls_str([(n, bare if n == "binarize" else {}) for n in trans]), srcarg], got),
+             # the same command from the raw words (TT.runTransitionsCmd: stepsOf, inOptsOf, `pos` by presence)
+             Line("corr", "transitions_cmd", [F, ew(cli_opts(opts)), system, ew(dw), ew(trans), ew(pw), srcarg], got)]
     return Case("cli-src:%s:%s" % (F, system), {"src_format": F, "src_opts": opts, "text": text, "transform": trans, "err": err[-300:] if rc else ""},
                 lines, nontrivial=True)
 
@@ -120,16 +126,26 @@ def grammar_case(rng):
     import os
     with cli.Scratch() as sc:
         src = sc.write("src." + F, text)
+        mw = None
+        if gtype != "treebank" and rng.random() < 0.5:
+            mw = rng.choice([["v:1"], ["h:1"], ["v:2", "h:1"], ["nofanout"], ["v:0", "h:0"], ["v:1", "h:2", "nofanout"], ["h:3", "h:1"],
+                             ["v:02"], ["nofanout:0", "h:2"], ["h:0", "v:3", "nofanout"]])
         rc, _, err = cli.run_cli(["grammar", src, sc.path("g"), gtype, "--dest-format", dest] + src_argv(F, opts)
-                                 + (["--dest-opts", "lex_in_grammar"] if lig else []))
+                                 + (["--dest-opts", "lex_in_grammar"] if lig else []) + ((["--markov"] + mw) if mw else []))
         if rc != 0:
             got = cli_error(err)
         else:
             lex = gram.enc_lines(gram.file_lines(sc.path("g.lex"))) if os.path.exists(sc.path("g.lex")) else "none"
             got = gram.enc_lines(gram.file_lines(sc.path("g." + dest))) + " # " + lex
-    lines = [Line("corr", "grammar_src", [F, proto.enc_opts(opts), gtype, "-", dest, "t" if lig else "f", srcarg], got,
-                  canon=("canon_pmcfg" if dest == "pmcfg" else gram.canon_line_files(lexfiles=(1,))))]
-    return Case("cli-src:%s:%s:%s" % (F, gtype, dest), {"src_format": F, "src_opts": opts, "text": text, "dest": dest, "lex_in_grammar": lig,
+    cn = "canon_pmcfg" if dest == "pmcfg" else gram.canon_line_files(lexfiles=(1,))
+    lines = []
+    if mw is None:
+        lines.append(Line("corr", "grammar_src", [F, proto.enc_opts(opts), gtype, "-", dest, "t" if lig else "f", srcarg], got, canon=cn))
+    # the same command from the raw words (TT.runGrammarCmd: markovOf - defaults v 1, h 2, `nofanout` by presence - and inOptsOf)
+    lines.append(Line("corr", "grammar_cmd", [F, ",".join(proto.enc_s(w) for w in cli_opts(opts)), gtype,
+                                              "n" if mw is None else ",".join(proto.enc_s(w) for w in mw), dest, "t" if lig else "f", srcarg],
+                      got, canon=cn))
+    return Case("cli-src:%s:%s:%s" % (F, gtype, dest), {"src_format": F, "src_opts": opts, "text": text, "dest": dest, "lex_in_grammar": lig, "markov": mw,
                                                         "err": err[-300:] if rc else ""}, lines, nontrivial=True)
 
 
